@@ -541,3 +541,146 @@ def check_c11(tier, t0):
 
 
 CHECKS["C11"] = check_c11
+
+
+# ---------------------------------------------------------------------------------------
+# C10 compile_code always returns a verdict, promptly, and cleans up
+# ---------------------------------------------------------------------------------------
+OUTSIDE_DOMAIN = {("modules", "no_main"), ("modules", "main_not_text"), ("modules", "lib_not_text"), ("modules", "empty_mapping"),
+                  ("options", "dict_unknown_key")}
+
+
+def _texts_of(src):
+    if isinstance(src, str):
+        return [src]
+    if isinstance(src, dict):
+        return [v for v in src.values() if isinstance(v, str)]
+    return []
+
+
+def observe_call(rec, src):
+    res = rec["result"]
+    how = "hung" if rec["raised"] == "HUNG" else ("raised" if rec["raised"] else "returned")
+    has_code = isinstance(res, dict) and "code" in res
+    has_err = isinstance(res, dict) and "error" in res
+    kind = "both" if (has_code and has_err) else "code" if has_code else "error" if has_err else "none"
+    consistent = described = positioned = True
+    if kind == "code":
+        code = res.get("code")
+        consistent = (isinstance(code, str) and all(isinstance(res.get(k), int) and not isinstance(res.get(k), bool) for k in ("num_lines", "num_bytes", "num_registers"))
+                      and res["num_lines"] == len(code.splitlines()) and 0 <= res["num_registers"] <= 16
+                      and res["num_bytes"] == len(code) + code.count("\n"))
+    if kind == "error":
+        err = res["error"]
+        described = isinstance(err, dict) and isinstance(err.get("description", err.get("message")), str) and len(err.get("description", err.get("message"))) > 0
+        if isinstance(err, dict) and "line" in err and err["line"] is not None:
+            positioned = False
+            for t in _texts_of(src):
+                lines = t.split("\n")
+                ln, col = err.get("line"), err.get("column")
+                if isinstance(ln, int) and 1 <= ln <= len(lines) and (col is None or (isinstance(col, int) and 0 <= col <= len(lines[ln - 1]) + 1)):
+                    le, ce = err.get("line_end"), err.get("column_end")
+                    if le is None or (isinstance(le, int) and ln <= le <= len(lines)):
+                        positioned = True
+    slow = rec["wall_ms"] > 25000 + 5000 * rec["spawned"]
+    return {"scanned": any(e["ev"] == "scan" for e in rec["events"]), "kids": min(rec["spawned"], 9), "how": how, "kind": kind,
+            "left": rec["left_running"] + rec.get("zombies", 0), "consistent": bool(consistent), "described": bool(described),
+            "positioned": bool(positioned), "slow": bool(slow)}
+
+
+def check_c10(tier, t0):
+    import multiprocessing as mp
+
+    import faults
+
+    d = workdir("C10")
+    rep = Reporter("C10")
+    # ---- the life-cycle model: as required it satisfies the property, in the pinned tree's shapes TLC exhibits the counterexamples
+    base = "CONSTANTS\n MaxKids = 3\n"
+    cfgs = {"required": (" ScanMayRaise = FALSE\n KillsOnTimeout = TRUE\n", True),
+            "scan_raises": (" ScanMayRaise = TRUE\n KillsOnTimeout = TRUE\n", False),
+            "no_kill": (" ScanMayRaise = FALSE\n KillsOnTimeout = FALSE\n", False)}
+    states = 0
+    design = {}
+    for name, (c, must_hold) in cfgs.items():
+        with open(os.path.join(d, "CC_%s.cfg" % name), "w") as f:
+            f.write("SPECIFICATION Spec\n" + base + c + "INVARIANT NeverRaises\nINVARIANT VerdictOnReturn\nINVARIANT CleansUp\nINVARIANT Prompt\nPROPERTY Returns\nCHECK_DEADLOCK FALSE\n")
+        r = run_tlc(os.path.join(SPEC, "CompileCall.tla"), os.path.join(d, "CC_%s.cfg" % name), d, workers=2, timeout=300)
+        states += r.distinct
+        design[name] = "holds" if r.ok else ("violated: " + ",".join(r.invariant_violated) if r.invariant_violated else "violated")
+        if must_hold and not r.ok:
+            raise MachineryError("CompileCall.tla (as required) does not satisfy the property:\n" + r.out[-2000:])
+        if not must_hold and r.ok:
+            raise MachineryError("CompileCall.tla: the %s shape was expected to violate the property" % name)
+    # ---- fault classes against the real compile_code, in supervised long-lived workers
+    rnd = random.Random(seed() + 10)
+    ins = faults.fault_inputs(rnd, tier, corpus.repo_programs(REPO))
+    nw = 10
+    warm = ("warmup", "warmup", faults.GOOD, None)
+    chunks = [[warm] + ins[k::nw] for k in range(nw)]
+    ctx = mp.get_context("fork")
+    with ctx.Pool(nw, initializer=cw._init) as p:
+        res = p.map(faults.run_calls, [{"inputs": c, "watchdog": 90} for c in chunks])
+    recs, srcs = [], []
+    for c, rr in zip(chunks, res):
+        for inp, r in zip(c[1:], rr[1:]):
+            recs.append(r)
+            srcs.append(inp)
+    outside = 0
+    obs, meta = [], []
+    for r, inp in zip(recs, srcs):
+        if (r["cls"], r["name"]) in OUTSIDE_DOMAIN:
+            outside += 1
+            continue
+        obs.append(observe_call(r, inp[2]))
+        meta.append((r, inp))
+    mut = dict(obs[0], left=1)
+    mut2 = dict(obs[0], how="raised")
+    with open(os.path.join(d, "obs.json"), "w") as f:
+        json.dump(obs + [mut, mut2], f)
+    with open(os.path.join(d, "CCT.cfg"), "w") as f:
+        f.write("SPECIFICATION TSpec\nCONSTANTS\n MaxKids = 9\n ScanMayRaise = FALSE\n KillsOnTimeout = TRUE\nCHECK_DEADLOCK FALSE\n")
+    rt = run_tlc(os.path.join(SPEC, "CompileCallTrace.tla"), os.path.join(d, "CCT.cfg"), d, workers=8, timeout=1800)
+    if not rt.ok:
+        raise MachineryError("CompileCallTrace.tla: " + rt.out[-3000:])
+    tv = rt.verdicts()
+    n = len(obs)
+    if "HELPER_PROCESS_LEFT" not in tv.get(n + 1, set()) or "RAISED" not in tv.get(n + 2, set()):
+        raise MachineryError("binding self-test failed: CompileCallTrace accepted corrupted observations (%s, %s)" % (tv.get(n + 1), tv.get(n + 2)))
+    classes = {}
+    for k in range(1, n + 1):
+        vs = tv.get(k, set()) - {"reported"}
+        r, inp = meta[k - 1]
+        classes.setdefault(r["cls"], [0, 0])[0] += 1
+        if not vs:
+            vs = {"NO_MATCHING_BEHAVIOUR"}
+        for v in sorted(vs):
+            if v == "OK":
+                continue
+            classes[r["cls"]][1] += 1
+            rep.violation(["%s:%s" % (r["cls"], r["name"]), r["cls"]], v,
+                          {"property": "C10", "class": r["cls"], "input": r["name"], "source": inp[2], "options": inp[3], "observation": obs[k - 1],
+                           "raised": r["raised"], "result": r["result"], "wall_ms": r["wall_ms"]},
+                          "input %s/%s: %s (%s)" % (r["cls"], r["name"], v, (r["raised"] or "")[:80]))
+    cov = {"states": states + rt.distinct, "transitions": rt.generated, "traces_validated_against_impl": n,
+           "evaluations": n, "distinct_nontrivial": len({json.dumps(m[1][2], sort_keys=True, default=str) for m in meta}),
+           "fault_classes": {c: v[0] for c, v in sorted(classes.items())}, "outside_domain_inputs_not_judged": outside,
+           "calls_with_helper_processes": sum(1 for o in obs if o["kids"] > 0), "helper_timeouts_observed": sum(1 for m in meta if m[0]["spawned"] and m[0]["wall_ms"] >= 1000),
+           "design_level": design,
+           "rule": "CompileCall.tla model-checked as required (all properties hold, liveness under weak fairness) and in the two shapes found in the pinned "
+                   "tree (scan raising, helper not killed: TLC exhibits the counterexamples); fault-class inputs (prefixes of real programs by line and "
+                   "character, token damage, text that is not a program, unsupported constructs, undefined names / recursion / arity, directive tags "
+                   "naming non-option attributes, constexpr bodies that fail / print / hang / exit / fork, several modules, option values) run through "
+                   "the real compile_code in watchdog-supervised long-lived workers with Popen observed and /proc inspected; every observation "
+                   "validated by CompileCallTrace.tla; distinct = distinct inputs",
+           "samples": [{"class": meta[k][0]["cls"], "input": meta[k][0]["name"], "observation": obs[k]} for k in (0, n // 2, n - 1)],
+           "binding_self_test": "left-over helper and raise both rejected", "known_findings_hit": sorted(rep.known)}
+    write_evidence("C10", tier, "fault_enumeration", cov, time.time() - t0, violations=len(rep.violations),
+                   assumptions=["sources are text (or a mapping of module name to text with a main module); option names are the eight known ones: a mapping without main module, "
+                                "non-text module values and unknown option names are API misuse and not judged",
+                                "'promptly' = within 25 s + 5 s per helper process on this (possibly loaded) machine after one warm-up call per worker; the watchdog is 90 s",
+                                "helper processes are observed by wrapping subprocess.Popen in the worker and reading /proc/<pid>/stat after the call"])
+    return rep.finish()
+
+
+CHECKS["C10"] = check_c10
